@@ -228,6 +228,52 @@ func Mutants(p *core.Program, r *rand.Rand, perKind int) []*bcase {
 		ps := cmds(c["params"])
 		c["params"] = append(append([]core.Cmd{}, ps[:s.i]...), ps[s.i+1:]...)
 	})
+	// an unused param that has the name of a param some OTHER template forwards
+	// with data="all" (usage must be accounted per template)
+	forwarded := map[string]bool{}
+	for _, s := range callSites {
+		c := bs[s.b].get()[s.i]
+		if c["data"] != "all" {
+			continue
+		}
+		callee := p.Bundle[c["tmpl"].(string)]
+		caller := p.Bundle[bs[s.b].tmpl]
+		if callee == nil || caller == nil {
+			continue
+		}
+		for _, a := range caller.Params {
+			for _, b2 := range callee.Params {
+				if a.Name == b2.Name {
+					forwarded[a.Name] = true
+				}
+			}
+		}
+	}
+	nfw := 0
+	for name := range forwarded {
+		var others []string
+		for tn, t := range p.Bundle {
+			has := false
+			for _, pa := range t.Params {
+				if pa.Name == name {
+					has = true
+				}
+			}
+			if !has {
+				others = append(others, tn)
+			}
+		}
+		sort.Strings(others)
+		for _, tn := range others {
+			if nfw >= 2*perKind {
+				break
+			}
+			nfw++
+			q := copyProg(p)
+			q.Bundle[tn].Params = append(q.Bundle[tn].Params, core.Param{Name: name})
+			out = append(out, &bcase{Family: "mutant", Kind: "unused-param-forwarded-elsewhere", Prog: q})
+		}
+	}
 	// per-template mutations
 	var tnames []string
 	for n := range p.Bundle {
